@@ -1,10 +1,235 @@
 import EpModel.Driver.Util
-/- `bf.*` and `spec.bf.*` operations (stub; filled in by the owner of this family). -/
+import EpModel.Model.BitFields
+import EpModel.Spec.BitLayout
+/- `bf.*` and `spec.bf.*` operations: bounded integer types and the six bit-packed headers (C15). -/
 namespace EpModel.Driver.Bf
-open EpModel EpModel.Driver
+open EpModel EpModel.Driver EpModel.BitFields
+
+def showTooBig (e : TooBig) : String :=
+  s!"err(actual={e.actual},max={e.maxAllowed},vt={e.valueType.name})"
+
+def showDecErr : DecErr → String
+  | .len r l layer => s!"err(len(req={r},len={l},src=Slice,layer={layer.name},off=0))"
+  | .ip4UnexpectedVersion v => s!"err(ip4.UnexpectedVersion({v}))"
+  | .ip4HeaderLengthSmallerThanHeader i => s!"err(ip4.HeaderLengthSmallerThanHeader({i}))"
+  | .ip6UnexpectedVersion v => s!"err(ip6.UnexpectedVersion({v}))"
+  | .macsecUnexpectedVersion => "err(macsec.UnexpectedVersion)"
+  | .macsecInvalidUnmodifiedShortLen => "err(macsec.InvalidUnmodifiedShortLen)"
+
+def b01 (b : Bool) : String := if b then "1" else "0"
+
+def argBool (s : String) : Option Bool :=
+  if s == "0" then some false else if s == "1" then some true else none
+
+/-- a decimal argument that fits the Rust parameter type of `bits` bits. -/
+def argU (bits : Nat) (s : String) : Option Nat := do
+  let v ← argNat s
+  if v < 2 ^ bits then some v else none
+
+def argHexN (n : Nat) (s : String) : Option Bytes := do
+  let b ← argHex s
+  if b.length = n then some b else none
+
+/-- (width of the Rust argument type, try_new, try_from) per type name. -/
+def boundedType (t : String) : Option (Nat × (Nat → Except TooBig Nat) × (Nat → Except TooBig Nat)) :=
+  match t with
+  | "vlan_id" => some (16, VlanId.tryNew, VlanId.tryFrom)
+  | "vlan_pcp" => some (8, VlanPcp.tryNew, VlanPcp.tryFrom)
+  | "dscp" => some (8, IpDscp.tryNew, IpDscp.tryFrom)
+  | "ecn" => some (8, IpEcn.tryNew, IpEcn.tryFrom)
+  | "frag_off" => some (16, IpFragOffset.tryNew, IpFragOffset.tryFrom)
+  | "flow_label" => some (32, Ipv6FlowLabel.tryNew, Ipv6FlowLabel.tryFrom)
+  | "macsec_an" => some (8, MacsecAn.tryNew, MacsecAn.tryFrom)
+  | "macsec_sl" => some (8, MacsecShortLen.tryFromU8, MacsecShortLen.tryFrom)
+  | "qrv" => some (8, Qrv.tryNew, Qrv.tryFrom)
+  | _ => none
+
+def showBounded (t : String) (r : Except TooBig Nat) : String :=
+  match r with
+  | .ok v => if t == "ecn" then s!"ok({v},{IpEcn.variantName v})" else s!"ok({v})"
+  | .error e => showTooBig e
+
+def showIp4 (h : Ip4) : String :=
+  s!"dscp={h.dscp},ecn={h.ecn},total_len={h.totalLen},id={h.ident},df={b01 h.df},mf={b01 h.mf},fo={h.fragOff},ttl={h.ttl},proto={h.proto},cks={h.checksum},src={hexOfBytes h.src},dst={hexOfBytes h.dst},opts={hexOfBytes h.options},ihl={h.ihl}"
+
+def showIp6 (h : Ip6) : String :=
+  s!"tc={h.trafficClass},dscp={Ip6.dscp h.trafficClass},ecn={Ip6.ecn h.trafficClass},fl={h.flowLabel},plen={h.payloadLen},nh={h.nextHeader},hop={h.hopLimit},src={hexOfBytes h.src},dst={hexOfBytes h.dst}"
+
+def showPType : PType → String
+  | .unmodified e => s!"unmod({e})"
+  | .modified => "mod"
+  | .encrypted => "enc"
+  | .encryptedUnmodified => "encunmod"
+
+def showVlan (h : Vlan) : String :=
+  s!"pcp={h.pcp},dei={b01 h.dei},vid={h.vid},et={h.etherType}"
+
+def showRaw8 (raw : Nat) : String :=
+  s!"raw={raw},flags={Query.flags raw},s={b01 (Query.sFlag raw)},qrv={Query.qrv raw}"
+
+open EpModel.Spec.BitLayout in
+def specOp (op : String) (args : List String) : Option String :=
+  match op, args with
+  | "spec.bf.extract", [hd, fld, hx] => do
+      let t ← table hd; let f ← lookup t fld; let b ← argHex hx
+      pure (toString (extract f b))
+  | "spec.bf.fields", [hd, hx] => do
+      let t ← table hd; let b ← argHex hx
+      pure (joinWith "," (t.map (fun f => s!"{f.name}={extract f b}")))
+  | "spec.bf.insert", [hd, fld, hx, v] => do
+      let t ← table hd; let f ← lookup t fld; let b ← argHex hx; let v ← argNat v
+      pure (hexOfBytes (insert f b v))
+  | _, _ => none
 
 def run (op : String) (args : List String) : Option String :=
   match op, args with
-  | _, _ => none
+  | "bf.try_new", [t, v] => do
+      let (bits, f, _) ← boundedType t; let v ← argU bits v
+      pure (showBounded t (f v))
+  | "bf.try_from", [t, v] => do
+      let (bits, _, f) ← boundedType t; let v ← argU bits v
+      pure (showBounded t (f v))
+  | "bf.sl_from_len", [n] => do
+      let n ← argU 64 n
+      pure (toString (MacsecShortLen.fromLen n))
+  | "bf.fo_byte_offset", [v] => do
+      let v ← argU 16 v
+      match IpFragOffset.tryNew v with
+      | .ok x => pure (toString (IpFragOffset.byteOffset x))
+      | .error e => pure (showTooBig e)
+  -- SingleVlanHeader
+  | "bf.vlan_enc", [pcp, dei, vid, et] => do
+      let pcp ← argU 8 pcp; let dei ← argBool dei; let vid ← argU 16 vid; let et ← argU 16 et
+      match VlanPcp.tryNew pcp with
+      | .error e => pure (showTooBig e)
+      | .ok pcp =>
+      match VlanId.tryNew vid with
+      | .error e => pure (showTooBig e)
+      | .ok vid => pure s!"ok({hexOfBytes (Vlan.toBytes ⟨pcp, dei, vid, et⟩)})"
+  | "bf.vlan_dec", [hx] => do
+      let b ← argHex hx
+      match Vlan.fromSlice b with
+      | .error e => pure (showDecErr e)
+      | .ok (h, rest) => pure s!"ok({showVlan h},rest={showWin (b.length - rest.length) rest.length})"
+  | "bf.vlan_from_bytes", [hx] => do
+      let b ← argHexN 4 hx
+      pure (showVlan (Vlan.fromBytes b))
+  -- Ipv4Header
+  | "bf.ip4_enc", [dscp, ecn, tl, id, df, mf, fo, ttl, proto, cks, src, dst, opts] => do
+      let dscp ← argU 8 dscp; let ecn ← argU 8 ecn; let tl ← argU 16 tl; let id ← argU 16 id
+      let df ← argBool df; let mf ← argBool mf; let fo ← argU 16 fo; let ttl ← argU 8 ttl
+      let proto ← argU 8 proto; let cks ← argU 16 cks
+      let src ← argHexN 4 src; let dst ← argHexN 4 dst; let opts ← argHex opts
+      if ¬ (opts.length ≤ 40 ∧ opts.length % 4 = 0) then none else
+      match IpDscp.tryNew dscp with
+      | .error e => pure (showTooBig e)
+      | .ok dscp =>
+      match IpEcn.tryNew ecn with
+      | .error e => pure (showTooBig e)
+      | .ok ecn =>
+      match IpFragOffset.tryNew fo with
+      | .error e => pure (showTooBig e)
+      | .ok fo =>
+        let h : Ip4 := ⟨dscp, ecn, tl, id, df, mf, fo, ttl, proto, cks, src, dst, opts⟩
+        pure s!"ok(bytes={hexOfBytes h.toBytes},raw={hexOfBytes h.writeRaw},ihl={h.ihl},len={h.toBytes.length})"
+  | "bf.ip4_dec", [hx] => do
+      let b ← argHex hx
+      match Ip4.fromSlice b with
+      | .error e => pure (showDecErr e)
+      | .ok (h, rest) => pure s!"ok({showIp4 h},rest={showWin (b.length - rest.length) rest.length})"
+  | "bf.ip4_read", [hx] => do
+      let b ← argHex hx
+      match Ip4.read b with
+      | none => pure "err(io)"
+      | some (.error e) => pure (showDecErr e)
+      | some (.ok h) => pure s!"ok({showIp4 h})"
+  -- Ipv6Header
+  | "bf.ip6_enc", [tc, fl, plen, nh, hop, src, dst] => do
+      let tc ← argU 8 tc; let fl ← argU 32 fl; let plen ← argU 16 plen; let nh ← argU 8 nh
+      let hop ← argU 8 hop; let src ← argHexN 16 src; let dst ← argHexN 16 dst
+      match Ipv6FlowLabel.tryNew fl with
+      | .error e => pure (showTooBig e)
+      | .ok fl => pure s!"ok({hexOfBytes (Ip6.toBytes ⟨tc, fl, plen, nh, hop, src, dst⟩)})"
+  | "bf.ip6_dec", [hx] => do
+      let b ← argHex hx
+      match Ip6.fromSlice b with
+      | .error e => pure (showDecErr e)
+      | .ok (h, rest) => pure s!"ok({showIp6 h},rest={showWin (b.length - rest.length) rest.length})"
+  | "bf.ip6_read", [hx] => do
+      let b ← argHex hx
+      match Ip6.read b with
+      | none => pure "err(io)"
+      | some (.error e) => pure (showDecErr e)
+      | some (.ok h) => pure s!"ok({showIp6 h})"
+  | "bf.ip6_tc", [tc, which, v] => do
+      let tc ← argU 8 tc; let v ← argU 8 v
+      if which == "dscp" then
+        match IpDscp.tryNew v with
+        | .error e => pure (showTooBig e)
+        | .ok d => let t := Ip6.setDscp tc d; pure s!"ok(tc={t},dscp={Ip6.dscp t},ecn={Ip6.ecn t})"
+      else if which == "ecn" then
+        match IpEcn.tryNew v with
+        | .error e => pure (showTooBig e)
+        | .ok d => let t := Ip6.setEcn tc d; pure s!"ok(tc={t},dscp={Ip6.dscp t},ecn={Ip6.ecn t})"
+      else none
+  -- Ipv6FragmentHeader
+  | "bf.frag_enc", [nh, fo, mf, id] => do
+      let nh ← argU 8 nh; let fo ← argU 16 fo; let mf ← argBool mf; let id ← argU 32 id
+      match IpFragOffset.tryNew fo with
+      | .error e => pure (showTooBig e)
+      | .ok fo => pure s!"ok({hexOfBytes (Frag6.toBytes ⟨nh, fo, mf, id⟩)})"
+  | "bf.frag_dec", [hx] => do
+      let b ← argHex hx
+      match Frag6.fromSlice b with
+      | .error e => pure (showDecErr e)
+      | .ok (h, rest) =>
+        pure s!"ok(nh={h.nextHeader},fo={h.fragOff},mf={b01 h.mf},id={h.ident},rest={showWin (b.length - rest.length) rest.length})"
+  -- MacsecHeader
+  | "bf.macsec_enc", [pt, et, es, scb, an, sl, pn, sci] => do
+      let et ← argU 16 et; let es ← argBool es; let scb ← argBool scb; let an ← argU 8 an
+      let sl ← argU 8 sl; let pn ← argU 32 pn
+      let sci : Option Nat ← (if sci == "-" then some none else (argU 64 sci).map some)
+      let ptype : PType ← (match pt with
+        | "unmod" => some (.unmodified et) | "mod" => some .modified | "enc" => some .encrypted
+        | "encunmod" => some .encryptedUnmodified | _ => none)
+      match MacsecAn.tryNew an with
+      | .error e => pure (showTooBig e)
+      | .ok an =>
+      match MacsecShortLen.tryFromU8 sl with
+      | .error e => pure (showTooBig e)
+      | .ok sl =>
+        let h : Macsec := ⟨ptype, es, scb, an, sl, pn, sci⟩
+        pure s!"ok({hexOfBytes h.toBytes},hlen={h.headerLen})"
+  | "bf.macsec_dec", [hx] => do
+      let b ← argHex hx
+      match Macsec.fromSlice b with
+      | .error e => pure (showDecErr e)
+      | .ok (h, n) =>
+        let sci := match h.sci with | none => "none" | some v => s!"some({v})"
+        pure s!"ok(ptype={showPType h.ptype},es={b01 h.es},scb={b01 h.scb},an={h.an},sl={h.shortLen},pn={h.pn},sci={sci},hlen={n})"
+  -- igmp::MembershipQueryWithSourcesHeader
+  | "bf.igmp_set", [raw, which, v] => do
+      let raw ← argU 8 raw; let v ← argU 8 v
+      if which == "flags" then pure s!"ok({showRaw8 (Query.setFlags raw v)})"
+      else if which == "s" then do
+        let s ← argBool (toString v)
+        pure s!"ok({showRaw8 (Query.setSFlag raw s)})"
+      else if which == "qrv" then
+        match Qrv.tryNew v with
+        | .error e => pure (showTooBig e)
+        | .ok q => pure s!"ok({showRaw8 (Query.setQrv raw q)})"
+      else none
+  | "bf.igmp_enc", [mrc, cks, group, raw, qqic, ns] => do
+      let mrc ← argU 8 mrc; let cks ← argU 16 cks; let group ← argHexN 4 group
+      let raw ← argU 8 raw; let qqic ← argU 8 qqic; let ns ← argU 16 ns
+      pure (hexOfBytes (Query.toBytes ⟨mrc, group, raw, qqic, ns⟩ cks))
+  | "bf.igmp_dec", [hx] => do
+      let b ← argHex hx
+      match Query.fromSlice b with
+      | .error e => pure (showDecErr e)
+      | .ok .other => pure "ok(other)"
+      | .ok (.query h cks rest) =>
+        pure s!"ok(query(mrc={h.maxRespCode},cks={cks},group={hexOfBytes h.group},{showRaw8 h.rawByte8},qqic={h.qqic},nsrc={h.numSources},rest={showWin (b.length - rest.length) rest.length}))"
+  | _, _ => specOp op args
 
 end EpModel.Driver.Bf
